@@ -891,6 +891,15 @@ func (p *c17) Execute(ci any) any {
 			if ver, err := sig.Verify(path, path+".prov"); err == nil {
 				res.OK, res.Hash = true, ver.FileHash
 			}
+			if base := filepath.Base(rel); base != c.Name && !res.OK {
+				// round 6 (seeded C17-9): the provenance file under its ORIGINAL name next to the renamed archive
+				// (helm verify of a copy / a cache layout): the file name is part of what is signed
+				orig := filepath.Join(filepath.Dir(path), c.Name+".prov")
+				os.WriteFile(orig, prov, 0o644)
+				if ver, err := sig.Verify(path, orig); err == nil {
+					res.OK, res.Hash = true, ver.FileHash
+				}
+			}
 		}
 		if ver, err := downloader.VerifyChart(path, rings[kr]); err == nil {
 			res.OKvc, res.HashVC = true, ver.FileHash
